@@ -27,11 +27,14 @@ func c19Op(kind int, tok *biscuit.Biscuit, pub ed25519.PublicKey, shared *c19Sha
 		return fmt.Sprint("verify:", err)
 	case 1: // authorize on an own authorizer, using shared parsed values
 		overrideLocal := pub
-		a, err := tok.AuthorizerFor(biscuit.WithSingularRootPublicKey(overrideLocal), biscuit.WithWorldOptions(longDuration()))
+		a, err := tok.AuthorizerFor(biscuit.WithSingularRootPublicKey(overrideLocal), shared.opt)
 		if err != nil {
 			return "authorize:create:" + err.Error()
 		}
 		a.AddFact(shared.fact)
+		// facts that differ between goroutines at index level (integers, dates): a world shared
+		// behind the authorizers' backs would mix them up
+		a.AddFact(biscuit.Fact{Predicate: biscuit.Predicate{Name: "mine", IDs: []biscuit.Term{biscuit.Integer(int64(r.Intn(1000)))}}})
 		a.AddRule(shared.rule)
 		a.AddCheck(shared.check)
 		a.AddPolicy(shared.policy)
@@ -41,9 +44,10 @@ func c19Op(kind int, tok *biscuit.Biscuit, pub ed25519.PublicKey, shared *c19Sha
 			a.AddCheck(c)
 		}
 		class, _, failed := classifyVerdict(a.Authorize())
-		return "authorize:" + class + strings.Join(failed, ",")
+		mine, _ := a.Query(biscuit.Rule{Head: biscuit.Predicate{Name: "q", IDs: []biscuit.Term{biscuit.Variable("m")}}, Body: []biscuit.Predicate{{Name: "mine", IDs: []biscuit.Term{biscuit.Variable("m")}}}})
+		return "authorize:" + class + strings.Join(failed, ",") + fmt.Sprint(" mine=", mine)
 	case 2: // query
-		a, err := tok.AuthorizerFor(biscuit.WithSingularRootPublicKey(pub), biscuit.WithWorldOptions(longDuration()))
+		a, err := tok.AuthorizerFor(biscuit.WithSingularRootPublicKey(pub), shared.opt)
 		if err != nil {
 			return "query:create:" + err.Error()
 		}
@@ -86,6 +90,8 @@ func c19Op(kind int, tok *biscuit.Biscuit, pub ed25519.PublicKey, shared *c19Sha
 }
 
 type c19Shared struct {
+	// ONE option value for all authorizers of all goroutines (an application builds its options once)
+	opt     biscuit.AuthorizerOption
 	fact    biscuit.Fact
 	present biscuit.Fact
 	rule    biscuit.Rule
@@ -157,7 +163,7 @@ func c19Worker(args []string) {
 	if err != nil {
 		fatal("%v", err)
 	}
-	shared := &c19Shared{p: p}
+	shared := &c19Shared{p: p, opt: biscuit.WithWorldOptions(longDuration())}
 	shared.fact, _ = p.Fact(`op("read")`, nil)
 	shared.present, _ = p.Fact(`right("file2", "read")`, nil)
 	shared.rule, _ = p.Rule(`seen($f) <- right($f, "read")`, nil)
